@@ -117,10 +117,11 @@ Fixpoint run_while (i : nat) (fuel : nat) (s : state val) : state val :=
 Definition thread_done (i : nat) (s : state val) : bool :=
   match nth_error (thr s) i with Some t => finished t | None => false end.
 
-(* (second request was blocked while the first was held, final store); None: not a complete run *)
-Definition forced (s : gsite) (k : nat) : option (bool * store val) :=
+(* (second request was blocked while the first was held, final store); None: not a complete run.
+   The two requests may be of different sites (a merge and a cleave of one body). *)
+Definition forced2 (s s' : gsite) (k : nat) : option (bool * store val) :=
   let r0 := site_request 1 s in
-  let r1 := site_request 2 s in
+  let r1 := site_request 2 s' in
   let fuel := S (List.length r0 + List.length r1) in
   match run_n 0 k (init [r0; r1] empty_store) with
   | None => None
@@ -131,6 +132,7 @@ Definition forced (s : gsite) (k : nat) : option (bool * store val) :=
     let s4 := run_while 1 fuel s3 in
     if all_done s4 then Some (blocked, st s4) else None
   end.
+Definition forced (s : gsite) (k : nat) : option (bool * store val) := forced2 s s k.
 
 (* the same schedule as an explicit list of thread indices (used by the refutation theorem) *)
 Definition canon (k : nat) (r0 r1 : request val) : list nat :=
@@ -153,6 +155,7 @@ Definition find_witness (s : gsite) : option nat :=
 (* ---- cases written by the driver ---- *)
 Inductive mode :=
 | Forced (yield : string) (blocked : bool)   (* request 1 held at the yield point, request 2 run, 1 released *)
+| Forced2 (site2 : string) (yield : string) (blocked : bool)  (* as Forced, request 2 is of another site *)
 | Stress (n : nat)                           (* n concurrent requests, ids 1..n *)
 | Live (yield : string) (blocked : bool)     (* as Forced, at a yield point that is not part of the site's model *)
 | Hang (n : nat) (yield : string).           (* the requests never finished (deadlock): n requests, held at yield ("" = stress) *)
@@ -170,6 +173,22 @@ Definition model_ok (c : c11case) : bool :=
   | Stress _ => true
   | Live _ _ => true
   | Hang _ _ => true      (* liveness is outside the model: judged by the oracle only *)
+  | Forced2 site2 y blocked =>
+    match find_site (c_site c), find_site site2 with
+    | Some s, Some s' =>
+      match yield_pos y (gs_events s) 0 with
+      | None => false
+      | Some k =>
+        match forced2 s s' k with
+        | None => false
+        | Some (b, final) =>
+          Bool.eqb b blocked &&
+          forallb (fun lo => negb (existsb (String.eqb (fst lo)) (site_locs s)) || set_eqb (snd lo) (final (fst lo)))
+                  (c_obs c)
+        end
+      end
+    | _, _ => false
+    end
   | Forced y blocked =>
     match find_site (c_site c) with
     | None => false
